@@ -100,3 +100,18 @@ PROPS["C11"] = dict(
     assumptions=["coordinates are grid values k*2^-s: negative zero and non-dyadic floats are not generated (min/max/compare are exact on any finite float; only (min+max)/2 rounds)"],
     partial=[],
 )
+
+JSON_TB = COMMON_TB + ["independent JSON tokenizer of the harness (harness/json.go), cross-checked against encoding/json on every text; it supplies the model with each number lexeme's float64 value (strconv.ParseFloat, as gjson uses) and each string's decoded content",
+                       "gjson reads any JSON text as that tree (Valid, ForEach, Get, Raw, String, Float), pretty.Ugly = whitespace removal: exercised, not proved",
+                       "number formatting: JsonExec.fmt_dyadic (exact decimal expansion of k*2^-s) = strconv.AppendFloat(f,'f',-1,64) on the grid; validated byte-for-byte by the correspondence; the theorems hold for an arbitrary formatting function"]
+JSON_RULE = ("grammar-generated documents of the nine GeoJSON types and the Circle convention (nesting <= 3, 2-4 dimensional and mixed positions, null ordinates in points, "
+  "duplicate / escaped / reordered reserved keys, foreign members of any JSON shape incl. id, bbox, properties, random whitespace, number lexemes with exponents and trailing zeros), "
+  "0-2 structured mutants of each (wrong JSON kind, dropped member/item, truncated array, changed ordinate, non-numeric ordinate, bad type, duplicated item, emptied/nulled container), "
+  "and texts that are not one JSON object (truncated, trailing garbage, wrong punctuation, random byte, scalars, arrays); every document is rendered to text, re-tokenized by the independent tokenizer, "
+  "and parsed by the implementation under random ParseOptions; output: rejection code or (6 flags, kind tree with every x,y, JSON bytes, Members()). non-trivial: all; distinct = distinct case lines")
+PROPS["C07"] = dict(streams=["C07"], kernel_cases=100, timeout=600, classify=classes.classify_c07, rule=JSON_RULE + "; compared with the Coq model of Parse and with the classification of C07 (well-formed -> accepted with exactly this tree; listed defect -> rejected)",
+    trusted_base=JSON_TB, assumptions=["numbers with dyadic values on the case's grid; other documents are counted as outside-model-domain-skipped"], partial=[])
+PROPS["C06"] = dict(streams=["C06"], kernel_cases=100, timeout=600, classify=classes.classify_c06, rule=JSON_RULE + "; for every accepted text the implementation re-parses its own JSON output under the same options: accepted again, same kind tree, byte-identical JSON, identical observables/predicate answers; JSON()/String()/MarshalJSON()/AppendJSON agree; output bytes compared with the Coq model of the writers",
+    trusted_base=JSON_TB, assumptions=["numbers finite"], partial=[])
+PROPS["C08"] = dict(streams=["C08"], kernel_cases=100, timeout=600, rule=JSON_RULE + "; every accepted text is re-parsed under 7 index-option variants (child threshold 0/1/3/64, geometry threshold 0/1/64, both kinds), 3 representation-option variants and with RequireValid: JSON, rect, empty, valid, point count and 30 predicate answers against 6 probe objects must be identical; Circle still recognised; RequireValid rejects exactly when a nested standard object is invalid",
+    trusted_base=JSON_TB, assumptions=[], partial=[])
